@@ -41,6 +41,26 @@ def numeric_leg(ctx):
                               {"shape": [list(one.shape), list(want.shape)],
                                "max_abs": float(np.max(np.abs(one - want))) if one.shape == want.shape else None})
                 continue
+            # the same samples handed over in other memory layouts (a column of an interleaved buffer, every other sample of
+            # a longer array, a reversed-stride view of the reversed array): same spectra, and chunks of a view chain alike
+            inter = np.empty((N, 2), dtype=x.dtype)
+            inter[:, 0], inter[:, 1] = x, -7.0
+            longer = np.empty(2 * N, dtype=x.dtype)
+            longer[::2], longer[1::2] = x, 3.0
+            for lname, view in (("column_of_interleaved", inter[:, 0]), ("every_other_sample", longer[::2]), ("negative_stride", x[::-1].copy()[::-1])):
+                got = pf.channelize(view, cache=False)
+                ctx.evaluations += 1
+                if got.shape != one.shape or not np.array_equal(got, one):
+                    a2 = dict(args)
+                    a2["layout"] = lname
+                    ctx.violation(MODULE, "numeric:memory_layout", a2, {"shape": [list(got.shape), list(one.shape)]})
+                pf3 = pfbm.PolyphaseFilterbank(num_taps=taps, num_branches=B, window_fn=wfn)
+                half = (nwin // 2) * taps * B
+                got2 = np.concatenate([pf3.channelize(view[:half], cache=True), pf3.channelize(view[half:], cache=True)], axis=0)
+                if got2.shape != one.shape or not np.array_equal(got2, one):
+                    a2 = dict(args)
+                    a2["layout"] = lname + "/chunked"
+                    ctx.violation(MODULE, "numeric:memory_layout", a2, {"shape": [list(got2.shape), list(one.shape)]})
             # linearity
             y = rng.standard_normal(N)
             lin = pf.channelize(2.5 * x - 1.5 * y, cache=False)
